@@ -20,6 +20,10 @@ func init() {
 			"no-password-on-argv: taint analysis shows no credential reaches an exec.Command argument. NOT decided: that crypto/ssh and the ssh binary honour these settings (trusted), behaviour against a live server.",
 		Assumptions: []string{"crypto/ssh verifies the host key through HostKeyCallback; the OpenSSH client honours its options", "knownhosts.New builds a callback that accepts only keys present in the given file"},
 		Mutants: []Mutant{
+			{ID: "C14-home-first", Desc: "ResolveFilePath prefers a file of the same name under the home directory", Rule: "C14/resolve-order",
+				Edits: []Edit{{File: "util/file.go", Old: "\t_, err := os.Stat(f)\n\tif err == nil {\n\t\treturn f, nil\n\t}\n", New: "\tif hd, herr := os.UserHomeDir(); herr == nil {\n\t\thf := fmt.Sprintf(\"%s/%s\", hd, strings.TrimPrefix(f, \"~/\"))\n\t\tif _, herr = os.Stat(hf); herr == nil {\n\t\t\treturn hf, nil\n\t\t}\n\t}\n\n\t_, err := os.Stat(f)\n\tif err == nil {\n\t\treturn f, nil\n\t}\n"}}},
+			{ID: "C14-asset-disables-strict-key", Desc: "an embedded definition gains an auth-strict-key option", Rule: "C14/embedded-defaults",
+				Edits: []Edit{{File: "assets/platforms/nokia_srl.yaml", Old: "platform-type: 'nokia_srl'\ndefault:\n", New: "platform-type: 'nokia_srl'\ndefault:\n  options:\n    - option: auth-strict-key\n      value: true\n"}}},
 			{ID: "C14-strict-says-no", Desc: "strict branch passes StrictHostKeyChecking=no", Rule: "C14/system",
 				Edits: []Edit{{File: "transport/system.go", Old: "\t\t\t\"StrictHostKeyChecking=yes\",", New: "\t\t\t\"StrictHostKeyChecking=no\","}}},
 			{ID: "C14-callback-not-installed", Desc: "known-hosts callback built but not installed", Rule: "C14/standard",
@@ -47,6 +51,10 @@ func init() {
 }
 
 func runC14(c *Ctx, r *Report) {
+	r.Rule("C14/resolve-order", "ResolveFilePath uses a configured path that exists as given; the home directory is only a fallback", 1)
+	r.Rule("C14/embedded-defaults", "no embedded platform definition disables host-key checking or authentication", 15)
+	checkResolveFilePathOrder(c, r, "C14/resolve-order")
+	checkEmbeddedSecurityDefaults(c, r, "C14/embedded-defaults")
 	r.Rule("C14/default-on", "SSHArgs.StrictKey is written only by the constructor (true) and the explicit opt-out option (false)", 2)
 	r.Rule("C14/standard", "standard transport: host-key callback, early returns, identity provenance on every path to the dial", 30)
 	r.Rule("C14/system", "system transport: the ssh argument list for every combination of settings", 90)
